@@ -19,6 +19,13 @@ def run(ctx):
     rp = ctx.rule('C14.P1', 'the address version used when verifying follows the selected chain (read at call time)', engine='OWN', floor=1)
     common.rule_call_time_params(rp, repo, files={'bitcoin/wallet.py', 'bitcoin/signmessage.py'})
     c04.common_hash_rule(ctx, repo, 'C14.H1')
+    # signing a message must leave the key as it was: the header byte and the recid search are about the key's own
+    # encoding, and the address the verifier derives depends on it
+    from . import c13
+    c13.rule_no_self_mutation(ctx, repo)
+    ctx.rules[-1].id = 'C14.K2'
+    for i_ in ctx.rules[-1].instances:
+        i_.rule = 'C14.K2'
     ctx.not_decided += ['public-key recovery mathematics (libcrypto)', 'that a different key or message yields a different recovered key (ECDSA)']
     ctx.assume('libcrypto implements SEC1 recovery; base64 is lossless')
 
